@@ -124,3 +124,8 @@ def rtl_process(arg):
 def crc_sequence(msg):
     from pyModeS import common
     return (common.crc(msg), common.crc(msg, True), common.crc(msg), common.crc(msg, encode=True))
+
+
+def cprnl_sequence(xs):
+    from pyModeS import common
+    return [int(common.cprNL(x)) for x in xs]
